@@ -16,6 +16,7 @@ open Token
 inductive DOp where
   | k (op : Op)
   | tx (c holder : Addr) (call : HolderCall)     -- an Ethereum transaction of a token holder (+ hook)
+  | txBatch (c holder : Addr) (calls : List HolderCall)   -- one transaction making several token calls (one receipt, one hook run)
   | sd (c : Addr)                                -- contract self-destructs
   | dep (c deployer : Addr) (supply : Nat)       -- somebody deploys an honest token
 deriving Repr
@@ -386,6 +387,10 @@ def gap (env : Env) (w : World TState) (p : Pair) : Int :=
 def burnedBy (t : Tr) (c : Addr) : Int :=
   match t.op with
   | .tx c' _ (.burn a) => if t.ok && c' == c && t.pre.evm.hasCode c then (a : Int) else 0
+  | .txBatch c' _ calls =>
+    if t.ok && c' == c && t.pre.evm.hasCode c then
+      calls.foldl (fun n call => match call with | .burn a => n + (a : Int) | _ => n) 0
+    else 0
   | _ => 0
 
 /-- chain-deployed pairs: escrow − total supply changes by exactly what holders destroyed themselves
